@@ -80,6 +80,12 @@ CLAIMED = {
         note="Single-mutation tree pairs (default literal/condition, range, prompt removed, option added/removed, choice default); <= 2 edits per case; interactive policy excluded; stored defaults outside the new active range and the reporting of mismatches of options other than the mutated one are left open.",
         design_ref="DESIGN.md section 3, C08",
     ),
+    "C14": dict(
+        technique="TLA+ model of the config server (spec/KServer.tla: the four reply channels of a configuration, Diff / Merge, request handling with multi-pass set, reset of options / menus / all, load / save with path tracking) on top of KStore; request sequences run against the real run_server() in-process; TLC (spec/MC_Server.tla) computes the specification's reply for every request, evaluates InSync on the model after every request, merges the observed replies into a client and compares it with a fresh server started on the saved file",
+        text="Model checking: for every session TLC folds the specification's request handler over the request sequence, compares each reply channel by channel with the observed reply, checks the model client against the full state after every request, and checks the client built from the observed replies against the initial message of a fresh real server on the file written by the final save (InSync on observations and SaveFaithful); protocol versions 2 and 3 in TLC, version 1 on visible options by the harness.",
+        note="Sessions of <= 3 requests + final save over per-program alphabets; in-process server (stdin/stdout substituted); menu/comment ids opaque (compared between observed client and fresh server only); error entries compared as present/absent. Open finding: a vanished range of a still visible option is never withdrawn.",
+        design_ref="DESIGN.md section 3, C14",
+    ),
 }
 
 REASON_PENDING = "check not built yet in this session (planned in DESIGN.md section 3); not claimed until its TLA+ model and conformance harness exist"
